@@ -525,6 +525,6 @@ def run(tier, seed):
 MANIFEST = {
     "engine": "E",
     "technique": "exhaustive small-scope enumeration of capability kinds x key alphabet x attenuation chains x (prefix, slot, deep-immutable) contexts on the real uri/nodemaker/unknown code against an independent hashlib derivation",
-    "text": "Every capability kind over a small key alphabet is attenuated along every chain of get_readonly/get_verify_cap and compared with an independently derived capability (same storage index and fingerprint, no stronger key in the string or the object); every combination of alleged prefix, deep-immutable flag and read/write slot placement is pushed through uri.from_string and NodeMaker.create_from_cap and the resulting capability or node must not report write authority or mutability it was not given.",
+    "text": "Every capability kind over a small key alphabet is attenuated along every chain of get_readonly/get_verify_cap and compared with an independently derived capability (same storage index and fingerprint, no stronger key in the string or the object); every combination of alleged prefix, deep-immutable flag and read/write slot placement is pushed through uri.from_string and NodeMaker.create_from_cap and the resulting capability or node must not report write authority or mutability it was not given. Marked capabilities (future formats, and known write-caps alleged read-only/immutable) are also linked into a real mutable directory and listed by another client: no write uri gained, marking not weakened.",
     "note": "Small scope over key values. Slot semantics the statement is silent about (an unprefixed write-cap placed in the read slot yields a writeable node) are accepted and counted.",
 }
